@@ -12,7 +12,7 @@ IMPORTS = 'Require Import V.Base.MachineInt V.Model.Counters V.Oracle.C15Oracle.
 RULE = ('histories of allocate_opt / free / set_counter_value / clock-set / dump on a CountersManager over fresh buffers of nm x 512 and '
         'nv x 128 bytes (nm, nv independent). quick: every word of length <= 3 over a 10-letter alphabet {alloc plain, alloc with key, '
         'alloc via key callback, alloc label 381, alloc key 113, free lowest / highest live, set value, clock to deadline-1, clock to '
-        'deadline} on 4 slot-count pairs from 1..3 (thorough: length <= 4 on 8 pairs from 1..4), each ending in a dump; plus random histories '
+        'deadline} on 4 slot-count pairs from 1..3 (thorough: length <= 4 on 8 pairs from 1..4), each ending in a dump; plus 72 random histories '
         'of 10..200 operations on 1..16 slots (cool-down 0, 1, 10, 1000, 2^62; labels of 0, 1, 379..381 bytes or with a NUL; keys of '
         '0, 8, 111..113 bytes by slice, by callback or both; values 0, 1, 2^63, 2^64-1; clock moved to just before / at / after a pending '
         'deadline, or backwards) with a dump every few operations and at the end. ids for free/set are taken from a reference '
@@ -200,13 +200,13 @@ def generate(rng, tier):
                 c = word_case(nm, nv, 10, word)
                 if c:
                     cases.append(c)
-    nrand = 1500 if big else 140
+    nrand = 1500 if big else 72
     for i in range(nrand):
         nm = rng.choice([1, 2, 3, 4, 5, 8, 16])
         nv = nm if rng.random() < 0.6 else rng.choice([1, 2, 3, 4, 5, 8, 16])
         timeout = rng.choice([0, 1, 10, 10, 1000, 2 ** 62])
-        length = rng.choice([10, 20, 40, 80] + ([200] if (big or i % 13 == 0) else []))
-        cases.append(random_history(rng, nm, nv, timeout, length, rng.choice([5, 10, 20])))
+        length = rng.choice([10, 20, 40, 80] + ([200] if (big or i % 24 == 0) else []))
+        cases.append(random_history(rng, nm, nv, timeout, length, rng.choice([5, 10, 20]) if length <= 40 else 20))
     # 2^24 failed allocations on a full manager (the high water mark of the unrepaired code wraps the i32 offsets there)
     cases.append({'kind': 'flood', 'nm': 1, 'nv': 1, 'count': 2 ** 24})
     cases.append({'kind': 'flood', 'nm': 2, 'nv': 3, 'count': 1000})
